@@ -1,4 +1,5 @@
 use crate::DbError;
+use crate::DbErrorType;
 use crate::utilities::serialize::Serialize;
 use crate::utilities::serialize::SerializeStatic;
 #[cfg(agdb_verif)]
@@ -83,6 +84,19 @@ impl WriteAheadLog {
     }
 
     fn read_exact(file: &mut File, size: u64) -> Result<Vec<u8>, DbError> {
+        let pos = file.stream_position()?;
+        let len = file.seek(SeekFrom::End(0))?;
+        file.seek(SeekFrom::Start(pos))?;
+
+        if size > len.saturating_sub(pos) {
+            return Err(DbError::storage(
+                DbErrorType::OutOfBounds,
+                format!(
+                    "Write ahead log record of {size} bytes at {pos} exceeds the log size ({len})"
+                ),
+            ));
+        }
+
         let mut buffer = vec![0_u8; size as usize];
         file.read_exact(&mut buffer)?;
 
